@@ -393,6 +393,15 @@ func (r *UnitRun) extraDeclText() string {
 
 func (o *Obligation) smt(withModel bool) string { return o.smtMode(withModel, false) }
 
+// smtHeader: declarations (world declarations pruned to what `mention` and the unit's own text use, the unit's named
+// axioms and its constants) for a script whose assertions are written by the caller.
+func (r *UnitRun) smtHeader(mention string) string {
+	var body strings.Builder
+	body.WriteString(r.extraDeclText())
+	body.WriteString(r.decls.dump())
+	return "(set-option :produce-models true)\n(set-logic ALL)\n" + r.prog.World.decls.prunedDump(body.String()+mention) + body.String()
+}
+
 // smtMode: groundOnly drops the index-quantified facts whose instance at the Skolem index was added (a weaker set of
 // hypotheses: unsat is still a proof; anything else falls back to the full query).
 func (o *Obligation) smtMode(withModel, groundOnly bool) string {
@@ -436,6 +445,7 @@ func (o *Obligation) smtMode(withModel, groundOnly bool) string {
 			}
 			terms = append(terms, o.Vars[k])
 		}
+		terms = append(terms, o.replayTerms()...)
 		if len(terms) > 0 {
 			asserts.WriteString("(get-value (" + strings.Join(terms, " ") + "))\n")
 		}
